@@ -176,6 +176,15 @@ int driverMain(int argc, char** argv, Driver& d) {
             if (line[0] == 'q') break;
             unsigned long long r = 0; int wp = 0; if (sscanf(line, "%llu %d", &r, &wp) < 1) continue;
             g_curRun = r;
+            if (d.isolateRuns() && !getenv("SIM_ISOLATED")) {
+                // the same thing in a process of its own: this worker only relays the lines
+                char self[512]; ssize_t sl = readlink("/proc/self/exe", self, sizeof self - 1); if (sl <= 0) { fprintf(stderr, "readlink /proc/self/exe failed\n"); return 2; } self[sl] = 0;
+                char cmd[1024]; snprintf(cmd, sizeof cmd, "echo '%llu %d' | SIM_ISOLATED=1 '%s' --seed %llu --tier %s %s--serve", r, wp, self, (unsigned long long)seed, tier.c_str(), keepTrace ? "--trace " : "");
+                fflush(stdout); FILE* f = popen(cmd, "r"); if (!f) { fprintf(stderr, "popen failed\n"); return 2; }
+                std::string ln; int ch; while ((ch = fgetc(f)) != EOF) { ln += (char)ch; if (ch == '\n') { if (ln != "E\n") { fwrite(ln.data(), 1, ln.size(), stdout); fflush(stdout); } ln.clear(); } }
+                pclose(f);
+                continue;
+            }
             fprintf(stdout, "B %llu\n", r); fflush(stdout);
             Json plan = d.makePlan(seed, r, tier);
             runOne(d, plan, r, runSeed(seed, d.property(), r), wp != 0, keepTrace);
